@@ -158,11 +158,12 @@ class DefiniteAssignment:
     nested defs, comprehension variables (own scope), except-as; `global`/`nonlocal` names and
     names never bound locally are not locals and are skipped."""
 
-    def __init__(self, fd, exhaustive=None, nonempty=None):
+    def __init__(self, fd, exhaustive=None, nonempty=None, search_hits=None):
         """exhaustive(list of test nodes of an if/elif chain without else) -> True when the domain of the function guarantees
-        that one branch is taken; nonempty(iter node of a for loop) -> True when the domain guarantees at least one iteration"""
+        that one branch is taken; nonempty(iter node of a for loop) -> True when the domain guarantees at least one iteration;
+        search_hits(for node) -> True when the domain guarantees that this search loop is left through one of its `break`s"""
         self.fd = fd
-        self.exhaustive, self.nonempty = exhaustive, nonempty
+        self.exhaustive, self.nonempty, self.search_hits = exhaustive, nonempty, search_hits
         self.locals = self.collect_locals(fd)
         self.problems = []      # (name, node, path description)
         params = {a.arg for a in fd.args.posonlyargs + fd.args.args + fd.args.kwonlyargs}
@@ -334,6 +335,8 @@ class DefiniteAssignment:
             self.bind(st.target, inner)
             fb, bb = self.block(st.body, inner, path + [f"loop {src(st.target)}"])
             f, b = self.block(st.orelse, bound, path)
+            if self.search_hits is not None and any(isinstance(x, ast.Break) for x in ast.walk(st)) and self.search_hits(st):
+                return True, self.bound_at_breaks(st, inner, path)      # the loop is left through a break
             if self.nonempty is not None and self.nonempty(st.iter) and fb and not any(isinstance(x, (ast.Break, ast.Continue)) for x in ast.walk(st)):
                 return True, bb             # at least one full iteration: what the body binds is bound afterwards
             return True, bound
